@@ -171,14 +171,14 @@ Proof.
 Qed.
 
 (** What the invariant says about the observable root and length. *)
-Theorem inv_root_spec t R b h0 :
-  inv H v t R -> seg_ok b h0 (rleaves (trs R)) ->
+Theorem inv_root_spec sat (SO : sat_ok H v sat) t R b h0 :
+  inv H v sat t R -> seg_ok b h0 (rleaves (trs R)) ->
   exists en, root_node t = Ok en /\
     mmr_root H v (rleaves (trs R)) = Some (e_data en) /\
     t_count t = mmr_size (length (rleaves (trs R))).
 Proof.
   intros [NE P I PK C RD] G.
-  destruct (resolve_bag H v t (trs R) (t_count t) (t_root t) RD PK) as (en & Res & ED & _).
+  destruct (resolve_bag H v sat SO t (trs R) (t_count t) (t_root t) RD PK) as (en & Res & ED & _).
   destruct (mmr_trees_unique R NE P I) as [MH MT].
   exists en. split; [exact Res|]. split.
   - unfold mmr_root, mmr_peaks. rewrite MT, ED. apply rbagd_bag.
